@@ -258,6 +258,7 @@ def _try_harness(prop, flavour, ds):
 
 
 TMAX_UNWIND = 50
+TMAX = 48
 
 
 # ======================================================================================
@@ -546,3 +547,702 @@ def render(hs):
         s += "        \"%s\" => %s(),\n" % (h.name, h.name)
     s += "        _ => return false,\n    }\n    true\n}\n"
     return s
+
+
+# ======================================================================================
+# Family OPS (C01 values, C10 traces): every operator == its documented method call
+# ======================================================================================
+
+OPT = "    let o: Option<u8> = if kani::any::<bool>() { Some(kani::any()) } else { None };\n"
+RES = "    let r0: Result<u8, u8> = if kani::any::<bool>() { Ok(kani::any()) } else { Err(kani::any()) };\n"
+ARR = "    let a: [u8; 3] = [kani::any(), kani::any(), kani::any()];\n"
+ARR2 = "    let b2: [u8; 2] = [kani::any(), kani::any()];\n"
+
+
+def C(k):
+    return "code(K_CALL, 0, 0, %d)" % k
+
+
+# name, inputs, macro branch, documented chain, result type, needs unwinding (iterators)
+OPS = [
+    ("map", OPT, "o |> |x: u8| { ev(%s); x.wrapping_add(1) }" % C(1), "o.map(|x: u8| { ev(%s); x.wrapping_add(1) })" % C(1), "Option<u8>", 0),
+    ("and_then", OPT, "o => |x: u8| { ev(%s); if x > 3 { Some(x) } else { None } }" % C(1), "o.and_then(|x: u8| { ev(%s); if x > 3 { Some(x) } else { None } })" % C(1), "Option<u8>", 0),
+    ("filter", OPT, "o ?> |x: &u8| { ev(%s); *x > 3 }" % C(1), "o.filter(|x: &u8| { ev(%s); *x > 3 })" % C(1), "Option<u8>", 0),
+    ("dot", OPT, "o .. is_some()", "o.is_some()", "bool", 0),
+    ("dot_gt", OPT, "o >. unwrap_or(7)", "o.unwrap_or(7)", "u8", 0),
+    ("then", OPT, "o -> |v: Option<u8>| { ev(%s); v.unwrap_or(9) }" % C(1), "(|v: Option<u8>| { ev(%s); v.unwrap_or(9) })(o)" % C(1), "u8", 0),
+    ("or", OPT, "o <| tag(%s, Some(5u8))" % C(1), "o.or(tag(%s, Some(5u8)))" % C(1), "Option<u8>", 0),
+    ("or_else", OPT, "o <= || { ev(%s); Some(6u8) }" % C(1), "o.or_else(|| { ev(%s); Some(6u8) })" % C(1), "Option<u8>", 0),
+    ("or_else_res", RES, "r0 <= |e: u8| { ev(%s); if e > 3 { Ok::<u8, u8>(e) } else { Err(e.wrapping_add(1)) } }" % C(1),
+     "r0.or_else(|e: u8| { ev(%s); if e > 3 { Ok::<u8, u8>(e) } else { Err(e.wrapping_add(1)) } })" % C(1), "Result<u8, u8>", 0),
+    ("map_err", RES, "r0 !> |e: u8| { ev(%s); e.wrapping_add(1) }" % C(1), "r0.map_err(|e: u8| { ev(%s); e.wrapping_add(1) })" % C(1), "Result<u8, u8>", 0),
+    ("inspect", OPT, "o ?? |v: &Option<u8>| { ev(code(K_CALL, 0, 0, v.is_some() as u16)); }",
+     "{ let t = o; (|v: &Option<u8>| { ev(code(K_CALL, 0, 0, v.is_some() as u16)); })(&t); t }", "Option<u8>", 0),
+    ("collect", ARR, "a.into_iter() =>[] Vec<u8>", "a.into_iter().collect::<Vec<u8>>()", "Vec<u8>", 5),
+    ("collect_bare", ARR, "a.into_iter() =>[]", "a.into_iter().collect()", "Vec<u8>", 5),
+    ("chain", ARR + ARR2, "a.into_iter() >@> b2.into_iter() ^@ 0u8, |acc: u8, x: u8| acc.wrapping_mul(3).wrapping_add(x)",
+     "a.into_iter().chain(b2.into_iter()).fold(0u8, |acc: u8, x: u8| acc.wrapping_mul(3).wrapping_add(x))", "u8", 7),
+    ("find_map", ARR, "a.into_iter() ?|>@ |x: u8| { ev(%s); if x > 3 { Some(x.wrapping_add(1)) } else { None } }" % C(1),
+     "a.into_iter().find_map(|x: u8| { ev(%s); if x > 3 { Some(x.wrapping_add(1)) } else { None } })" % C(1), "Option<u8>", 5),
+    ("filter_map", ARR, "a.into_iter() ?|> |x: u8| { ev(%s); if x > 3 { Some(x.wrapping_add(1)) } else { None } } ^@ 0u8, |acc: u8, x: u8| acc.wrapping_mul(3).wrapping_add(x)" % C(1),
+     "a.into_iter().filter_map(|x: u8| { ev(%s); if x > 3 { Some(x.wrapping_add(1)) } else { None } }).fold(0u8, |acc: u8, x: u8| acc.wrapping_mul(3).wrapping_add(x))" % C(1), "u8", 5),
+    ("enumerate", ARR, "a.into_iter() |n> ^@ 0u8, |acc: u8, (i, x): (usize, u8)| acc.wrapping_mul(3).wrapping_add(x).wrapping_add(i as u8)",
+     "a.into_iter().enumerate().fold(0u8, |acc: u8, (i, x): (usize, u8)| acc.wrapping_mul(3).wrapping_add(x).wrapping_add(i as u8))", "u8", 5),
+    ("partition", ARR, "a.into_iter() ?&!> |x: &u8| { ev(%s); *x > 3 }" % C(1), "a.into_iter().partition(|x: &u8| { ev(%s); *x > 3 })" % C(1), "(Acc, Acc)", 5),
+    ("flatten", ARR + ARR2, "[b2, b2, [a[0], a[1]]].into_iter() ^^> ^@ 0u8, |acc: u8, x: u8| acc.wrapping_mul(3).wrapping_add(x)",
+     "[b2, b2, [a[0], a[1]]].into_iter().flatten().fold(0u8, |acc: u8, x: u8| acc.wrapping_mul(3).wrapping_add(x))", "u8", 8),
+    ("fold", ARR, "a.into_iter() ^@ tag(%s, 1u8), |acc: u8, x: u8| { ev(%s); acc.wrapping_mul(3).wrapping_add(x) }" % (C(1), C(2)),
+     "a.into_iter().fold(tag(%s, 1u8), |acc: u8, x: u8| { ev(%s); acc.wrapping_mul(3).wrapping_add(x) })" % (C(1), C(2)), "u8", 5),
+    ("try_fold", ARR, "a.into_iter() ?^@ 0u8, |acc: u8, x: u8| { ev(%s); acc.checked_add(x) }" % C(1),
+     "a.into_iter().try_fold(0u8, |acc: u8, x: u8| { ev(%s); acc.checked_add(x) })" % C(1), "Option<u8>", 5),
+    ("find", ARR, "a.into_iter() ?@ |x: &u8| { ev(%s); *x > 3 }" % C(1), "a.into_iter().find(|x: &u8| { ev(%s); *x > 3 })" % C(1), "Option<u8>", 5),
+    ("zip", ARR + ARR2, "a.into_iter() >^> b2.into_iter() ^@ 0u8, |acc: u8, (x, y): (u8, u8)| acc.wrapping_mul(3).wrapping_add(x).wrapping_sub(y)",
+     "a.into_iter().zip(b2.into_iter()).fold(0u8, |acc: u8, (x, y): (u8, u8)| acc.wrapping_mul(3).wrapping_add(x).wrapping_sub(y))", "u8", 5),
+    ("unzip", ARR + ARR2, "[(a[0], b2[0]), (a[1], b2[1])].into_iter() <-> u8, u8, Vec<u8>, Vec<u8>",
+     "[(a[0], b2[0]), (a[1], b2[1])].into_iter().unzip::<u8, u8, Vec<u8>, Vec<u8>>()", "(Vec<u8>, Vec<u8>)", 5),
+    ("unzip_bare", ARR + ARR2, "[(a[0], b2[0]), (a[1], b2[1])].into_iter() <->", "[(a[0], b2[0]), (a[1], b2[1])].into_iter().unzip()", "(Vec<u8>, Vec<u8>)", 5),
+]
+
+# chains mixing operators, and operand / initial-value shapes (binds-looser initial values: fix 0941b1e)
+CHAINS = [
+    ("chain_opt4", OPT, "o |> |x: u8| x.wrapping_add(1) => |x: u8| if x > 3 { Some(x) } else { None } ?> |x: &u8| *x < 200 <| Some(1u8)",
+     "o.map(|x: u8| x.wrapping_add(1)).and_then(|x: u8| if x > 3 { Some(x) } else { None }).filter(|x: &u8| *x < 200).or(Some(1u8))", "Option<u8>", 0),
+    ("chain_res4", RES, "r0 !> |e: u8| e.wrapping_add(1) <= |e: u8| if e > 9 { Ok::<u8, u8>(e) } else { Err(e) } |> |x: u8| x.wrapping_mul(2) .. ok()",
+     "r0.map_err(|e: u8| e.wrapping_add(1)).or_else(|e: u8| if e > 9 { Ok::<u8, u8>(e) } else { Err(e) }).map(|x: u8| x.wrapping_mul(2)).ok()", "Option<u8>", 0),
+    ("chain_iter5", ARR, "a.into_iter() ?> |x: &u8| *x > 1 |> |x: u8| x.wrapping_mul(2) |n> ?|> |(i, x): (usize, u8)| if i < 2 { Some(x) } else { None } ^@ 0u8, |acc: u8, x: u8| acc.wrapping_add(x)",
+     "a.into_iter().filter(|x: &u8| *x > 1).map(|x: u8| x.wrapping_mul(2)).enumerate().filter_map(|(i, x): (usize, u8)| if i < 2 { Some(x) } else { None }).fold(0u8, |acc: u8, x: u8| acc.wrapping_add(x))", "u8", 5),
+    ("chain_deferred", OPT, "o |> |x: u8| x.wrapping_add(1) ~=> |x: u8| if x > 3 { Some(x) } else { None } ~?> |x: &u8| *x < 200 ~<| Some(1u8)",
+     "o.map(|x: u8| x.wrapping_add(1)).and_then(|x: u8| if x > 3 { Some(x) } else { None }).filter(|x: &u8| *x < 200).or(Some(1u8))", "Option<u8>", 0),
+    ("init_binary", "    let x: u8 = kani::any();\n", "x & 0x0f | 1 .. pow(2)", "(x & 0x0f | 1).pow(2)", "u8", 0),
+    ("init_unary", "    let y: i8 = kani::any(); kani::assume(y > -11 && y < 11);\n", "-y .. pow(2)", "(-y).pow(2)", "i8", 0),
+    ("init_cast", "    let x: u8 = kani::any();\n", "x as u16 .. wrapping_mul(300)", "(x as u16).wrapping_mul(300)", "u16", 0),
+    ("init_ref", "    let x: u8 = kani::any();\n", "&x .. wrapping_add(1)", "(&x).wrapping_add(1)", "u8", 0),
+    ("init_if", "    let x: u8 = kani::any();\n", "if x > 5 { Some(x) } else { None } |> |v: u8| v.wrapping_add(1)", "(if x > 5 { Some(x) } else { None }).map(|v: u8| v.wrapping_add(1))", "Option<u8>", 0),
+    ("init_match", "    let x: u8 = kani::any();\n", "match x { 0 => None, v => Some(v) } |> |v: u8| v.wrapping_add(1)", "(match x { 0 => None, v => Some(v) }).map(|v: u8| v.wrapping_add(1))", "Option<u8>", 0),
+    ("init_block", "    let x: u8 = kani::any();\n", "{ let t = x.wrapping_add(1); Some(t) } |> |v: u8| v.wrapping_add(1)", "({ let t = x.wrapping_add(1); Some(t) }).map(|v: u8| v.wrapping_add(1))", "Option<u8>", 0),
+    ("init_call_chain", "    let x: u8 = kani::any();\n", "Some(x).filter(|v| *v > 2).or(Some(9)) |> |v: u8| v.wrapping_add(1)", "Some(x).filter(|v| *v > 2).or(Some(9)).map(|v: u8| v.wrapping_add(1))", "Option<u8>", 0),
+    ("init_macro", "    let x: u8 = kani::any();\n", "core::cmp::max(x, 3u8).checked_add(250) |> |v: u8| v.wrapping_add(1)", "core::cmp::max(x, 3u8).checked_add(250).map(|v: u8| v.wrapping_add(1))", "Option<u8>", 0),
+    ("operand_closure_ret", OPT, "o |> |x: u8| -> u8 { x.wrapping_add(1) } => |x: u8| -> Option<u8> { Some(x) }", "o.map(|x: u8| -> u8 { x.wrapping_add(1) }).and_then(|x: u8| -> Option<u8> { Some(x) })", "Option<u8>", 0),
+    ("operand_turbofish", OPT, "o |> core::convert::identity::<u8> => Some::<u8>", "o.map(core::convert::identity::<u8>).and_then(Some::<u8>)", "Option<u8>", 0),
+    ("operand_shift", OPT, "o |> |x: u8| x >> 1 |> |x: u8| (x << 1) | (x >> 7)", "o.map(|x: u8| x >> 1).map(|x: u8| (x << 1) | (x >> 7))", "Option<u8>", 0),
+    ("operand_lookalikes", OPT, "o |> |x: u8| { let t = (|y: u8| -> u8 { y })(x); let _s = \"|> => ~ <<< ,\"; [t, 0][(t > 200) as usize] } ?> |x: &u8| matches!(*x, 0..=9 | 20..=255)",
+     "o.map(|x: u8| { let t = (|y: u8| -> u8 { y })(x); let _s = \"|> => ~ <<< ,\"; [t, 0][(t > 200) as usize] }).filter(|x: &u8| matches!(*x, 0..=9 | 20..=255))", "Option<u8>", 0),
+    ("collect_after_closure_ret", ARR, "a.into_iter() |> |x: u8| -> u8 { x.wrapping_add(1) } =>[] Vec<u8>", "a.into_iter().map(|x: u8| -> u8 { x.wrapping_add(1) }).collect::<Vec<u8>>()", "Vec<u8>", 5),
+]
+
+OPT_OPS_POOL = [
+    ("|> |x: u8| { ev(%s); x.wrapping_add(1) }", ".map(|x: u8| { ev(%s); x.wrapping_add(1) })"),
+    ("=> |x: u8| { ev(%s); if x > 3 { Some(x) } else { None } }", ".and_then(|x: u8| { ev(%s); if x > 3 { Some(x) } else { None } })"),
+    ("?> |x: &u8| { ev(%s); *x < 200 }", ".filter(|x: &u8| { ev(%s); *x < 200 })"),
+    ("<| tag(%s, Some(5u8))", ".or(tag(%s, Some(5u8)))"),
+    ("<= || { ev(%s); Some(6u8) }", ".or_else(|| { ev(%s); Some(6u8) })"),
+    ("?? |v: &Option<u8>| { ev(%s); let _ = v; }", "@inspect@|v: &Option<u8>| { ev(%s); let _ = v; }"),
+    ("-> |v: Option<u8>| { ev(%s); v.or(Some(2)) }", "@call@|v: Option<u8>| { ev(%s); v.or(Some(2)) }"),
+]
+
+
+def _ops_harness(prop, name, inputs, mac_branch, chain, rty, unwind, mac="join", with_trace=False, nev=8):
+    b = inputs
+    prog = "%s! { %s }" % (mac, mac_branch)
+    b += "    let r: %s = %s;\n" % (rty, prog)
+    b += "    reference_mode();\n"
+    b += "    let exp: %s = %s;\n" % (rty, chain)
+    b += "    assert!(r == exp, \"C01: macro result differs from the documented method chain\");\n"
+    if with_trace:
+        b += trace_eq(nev)
+    hn = "%s_ops_%s_%s" % (prop.lower(), mac, name)
+    return Harness(hn, harness_fn(hn, b, unwind=unwind or None), prog, note="operator program `%s` vs `%s`" % (mac_branch, chain))
+
+
+def fam_ops(prop, tier):
+    out = []
+    tr_ = prop == "C10"
+    for (name, inputs, m, c, rty, uw) in OPS:
+        out.append(_ops_harness(prop, name, inputs, m, c, rty, uw, "join", tr_))
+    if prop == "C01":
+        for (name, inputs, m, c, rty, uw) in CHAINS:
+            out.append(_ops_harness(prop, name, inputs, m, c, rty, uw, "join", False))
+    # try_join!: the chain must end in Option/Result; the single-branch result is that value
+    for (name, inputs, m, c, rty, uw) in OPS:
+        if rty in ("Option<u8>", "Result<u8, u8>"):
+            out.append(_ops_harness(prop, name, inputs, m, c, rty, uw, "try_join", tr_))
+    # adjacency: ordered pairs of Option->Option operators, second one instant or deferred
+    pool = OPT_OPS_POOL
+    pairs = [(i, j) for i in range(len(pool)) for j in range(len(pool))]
+    if tier == "quick":
+        pairs = [(i, (i * 3 + 1) % len(pool)) for i in range(len(pool))] + [(i, i) for i in range(0, len(pool), 2)]
+    for (i, j) in pairs:
+        for deferred in (False, True):
+            if tier == "quick" and deferred and (i + j) % 2:
+                continue
+            m1, c1 = pool[i]
+            m2, c2 = pool[j]
+            mb = "o " + (m1 % C(1)) + (" ~" if deferred else " ") + (m2 % C(2))
+            ch = _apply_ref(_apply_ref("o", c1 % C(1)), c2 % C(2))
+            out.append(_ops_harness(prop, "pair_%d_%d_%s" % (i, j, "d" if deferred else "i"), OPT, mb, ch, "Option<u8>", 0, "join", tr_))
+    return out
+
+
+# ======================================================================================
+# Family WRAP (C02): `X >>> inner <<< rest`  ==  `.x(|v| v inner) rest`
+# ======================================================================================
+
+OO = "    let oo: Option<Option<u8>> = if kani::any::<bool>() { Some(if kani::any::<bool>() { Some(kani::any()) } else { None }) } else { None };\n"
+OOO = "    let ooo: Option<Option<Option<u8>>> = if kani::any::<bool>() { Some(if kani::any::<bool>() { Some(if kani::any::<bool>() { Some(kani::any()) } else { None }) } else { None }) } else { None };\n"
+RR = "    let rr: Result<u8, Result<u8, u8>> = if kani::any::<bool>() { Ok(kani::any()) } else { Err(if kani::any::<bool>() { Ok(kani::any()) } else { Err(kani::any()) }) };\n"
+OARR = "    let oa: [Option<u8>; 3] = [if kani::any::<bool>() { Some(kani::any()) } else { None }, if kani::any::<bool>() { Some(kani::any()) } else { None }, Some(kani::any())];\n"
+F1 = "|x: u8| { ev(%s); x.wrapping_add(1) }"
+SUM = "^@ 0u8, |acc: u8, x: u8| acc.wrapping_mul(3).wrapping_add(x)"
+SUMC = ".fold(0u8, |acc: u8, x: u8| acc.wrapping_mul(3).wrapping_add(x))"
+
+WRAPS = [
+    # name, inputs, macro branch, hand-nested reference, type, unwind
+    ("map", OO, "oo |> >>> |> %s <<< |> |v: Option<u8>| v.or(Some(7))" % (F1 % C(1)), "oo.map(|v| v.map(%s)).map(|v: Option<u8>| v.or(Some(7)))" % (F1 % C(1)), "Option<Option<u8>>", 0),
+    ("and_then", OO, "oo => >>> ?> |x: &u8| { ev(%s); *x > 3 } <<< |> |x: u8| x.wrapping_add(2)" % C(1), "oo.and_then(|v| v.filter(|x: &u8| { ev(%s); *x > 3 })).map(|x: u8| x.wrapping_add(2))" % C(1), "Option<u8>", 0),
+    ("filter", OO, "oo ?> >>> .. is_some() <<< |> |v: Option<u8>| v.unwrap_or(1)", "oo.filter(|v| v.is_some()).map(|v: Option<u8>| v.unwrap_or(1))", "Option<u8>", 0),
+    ("inspect", OO, "oo ?? >>> -> |v: &Option<Option<u8>>| { ev(code(K_CALL, 0, 0, v.is_some() as u16)); } <<< |> |v: Option<u8>| v.unwrap_or(1)",
+     "{ let t = oo; (|v| ((|v: &Option<Option<u8>>| { ev(code(K_CALL, 0, 0, v.is_some() as u16)); })(v)))(&t); t }.map(|v: Option<u8>| v.unwrap_or(1))", "Option<u8>", 0),
+    ("filter_map", OARR, "oa.into_iter() ?|> >>> |> %s <<< %s" % (F1 % C(1), SUM), "oa.into_iter().filter_map(|v| v.map(%s))%s" % (F1 % C(1), SUMC), "u8", 5),
+    ("find", ARR, "a.into_iter() ?@ >>> .. gt(&3) <<< |> |x: u8| x.wrapping_add(2)", "a.into_iter().find(|v| v.gt(&3)).map(|x: u8| x.wrapping_add(2))", "Option<u8>", 5),
+    ("find_map", OARR, "oa.into_iter() ?|>@ >>> |> %s <<< |> |x: u8| x.wrapping_add(2)" % (F1 % C(1)), "oa.into_iter().find_map(|v| v.map(%s)).map(|x: u8| x.wrapping_add(2))" % (F1 % C(1)), "Option<u8>", 5),
+    ("partition", ARR, "a.into_iter() ?&!> >>> .. gt(&3) <<<", "a.into_iter().partition(|v| v.gt(&3))", "(Acc, Acc)", 5),
+    ("or_else", RR, "rr <= >>> !> |e: u8| { ev(%s); e.wrapping_add(1) } <<< |> |x: u8| x.wrapping_add(2)" % C(1), "rr.or_else(|v| v.map_err(|e: u8| { ev(%s); e.wrapping_add(1) })).map(|x: u8| x.wrapping_add(2))" % C(1), "Result<u8, u8>", 0),
+    ("map_err", RR, "rr !> >>> <| Ok::<u8, u8>(4) <<< |> |x: u8| x.wrapping_add(2)", "rr.map_err(|v| v.or(Ok::<u8, u8>(4))).map(|x: u8| x.wrapping_add(2))", "Result<u8, Result<u8, u8>>", 0),
+    # closing positions
+    ("map_implicit_end", OO, "oo |> >>> |> %s" % (F1 % C(1)), "oo.map(|v| v.map(%s))" % (F1 % C(1)), "Option<Option<u8>>", 0),
+    ("map_implicit_step", OO, "oo |> >>> |> %s ~|> |v: Option<u8>| v.or(Some(7))" % (F1 % C(1)), "oo.map(|v| v.map(%s)).map(|v: Option<u8>| v.or(Some(7)))" % (F1 % C(1)), "Option<Option<u8>>", 0),
+    ("map_empty_inner", OO, "oo |> >>> <<< |> |v: Option<u8>| v.or(Some(7))", "oo.map(|v| v).map(|v: Option<u8>| v.or(Some(7)))", "Option<Option<u8>>", 0),
+    ("map_deferred_wrapper", OO, "oo ~|> >>> |> %s <<< |> |v: Option<u8>| v.or(Some(7))" % (F1 % C(1)), "oo.map(|v| v.map(%s)).map(|v: Option<u8>| v.or(Some(7)))" % (F1 % C(1)), "Option<Option<u8>>", 0),
+    ("map_block_capture_inside", OO, "oo |> >>> |> { let k = tag(code(K_CAP, 0, 0, 1), 3u8); move |x: u8| x.wrapping_add(k) } <<<", "{ let k = tag(code(K_CAP, 0, 0, 1), 3u8); oo.map(|v| v.map(move |x: u8| x.wrapping_add(k))) }", "Option<Option<u8>>", 0),
+    # depth 2 and 3
+    ("depth2", OOO, "ooo |> >>> |> >>> |> %s <<< |> |v: Option<u8>| v.or(Some(7)) <<< |> |v: Option<Option<u8>>| v.or(Some(Some(8)))" % (F1 % C(1)),
+     "ooo.map(|v| v.map(|v| v.map(%s)).map(|v: Option<u8>| v.or(Some(7)))).map(|v: Option<Option<u8>>| v.or(Some(Some(8))))" % (F1 % C(1)), "Option<Option<Option<u8>>>", 0),
+    ("depth2_implicit", OOO, "ooo |> >>> |> >>> |> %s" % (F1 % C(1)), "ooo.map(|v| v.map(|v| v.map(%s)))" % (F1 % C(1)), "Option<Option<Option<u8>>>", 0),
+    ("depth2_mixed", OOO, "ooo => >>> |> >>> ?> |x: &u8| *x > 3 <<< <<< |> |v: Option<u8>| v.or(Some(7))", "ooo.and_then(|v| v.map(|v| v.filter(|x: &u8| *x > 3))).map(|v: Option<u8>| v.or(Some(7)))", "Option<Option<u8>>", 0),
+    ("depth2_state", OOO, "ooo |> >>> |> >>> |> |x: u8| { hits += 1; x.wrapping_add(1) } <<< <<<", "@state@", "Option<Option<Option<u8>>>", 0),
+]
+
+
+def fam_wrap(prop, tier):
+    out = []
+    for (name, inputs, m, c, rty, uw) in WRAPS:
+        for mac in ("join", "try_join"):
+            if mac == "try_join" and not (rty.startswith("Option") or rty.startswith("Result")):
+                continue
+            if c == "@state@":
+                # the wrapper closures borrow (not move) the caller's state: C02 desugaring is `|v| v inner`, not `move |v| ..`
+                b = inputs + "    let mut hits: u8 = 0;\n"
+                prog = "%s! { %s }" % (mac, m)
+                b += "    let r: %s = %s;\n" % (rty, prog)
+                b += "    let exp: %s = ooo.map(|v| v.map(|v| v.map(|x: u8| x.wrapping_add(1))));\n" % rty
+                b += "    assert!(r == exp);\n"
+                b += "    assert!(hits == (matches!(ooo, Some(Some(Some(_)))) as u8), \"C02: the inner chain did not run in the caller's environment (closure captured by move?)\");\n"
+                hn = "%s_wrap_%s_%s" % (prop.lower(), mac, name)
+                out.append(Harness(hn, harness_fn(hn, b), prog, note="nested wrappers mutate a caller local"))
+                continue
+            h = _ops_harness(prop, name, inputs, m, c, rty, uw, mac, True, 8)
+            h.name = "%s_wrap_%s_%s" % (prop.lower(), mac, name)
+            h.code = h.code.replace("%s_ops_%s_%s" % (prop.lower(), mac, name), h.name).replace("C01: macro result differs from the documented method chain", "C02: result differs from the hand-nested closures")
+            out.append(h)
+    return out
+
+
+FAMILIES["C01"] = [fam_ops]
+FAMILIES["C02"] = [fam_wrap]
+FAMILIES["C10"] = [fam_ops]
+
+
+# ======================================================================================
+# Family TOK (C10, C19): move-only values are moved, never cloned, dropped exactly once
+# ======================================================================================
+
+def fam_tok(prop, tier):
+    out = []
+    progs = [
+        ("join2", "join", "(Option<Tok>, Option<Tok>)",
+         "Some(Tok::new(a)) |> |t: Tok| Tok::new(t.0.wrapping_add(1)) ~=> |t: Tok| if keep { Some(t) } else { None } ~|> |t: Tok| t, Some(Tok::new(2)) ~?> |t: &Tok| t.0 > 1",
+         "r.0.is_some() as i32 + r.1.is_some() as i32", "(Some(x), _) => x.0 == a.wrapping_add(1), _ => !keep"),
+        ("try3", "try_join", "Option<(Tok, Tok, Tok)>",
+         "Some(Tok::new(a)) ~|> |t: Tok| t ~=> |t: Tok| if keep { Some(t) } else { None }, Some(Tok::new(2)), Some(Tok::new(3)) ~|> |t: Tok| Tok::new(t.0 + 1)",
+         "if r.is_some() { 3 } else { 0 }", "Some((x, y, z)) => keep && x.0 == a && y.0 == 2 && z.0 == 4, None => !keep"),
+        ("try_map_handler", "try_join", "Option<Tok>",
+         "Some(Tok::new(a)) ~|> |t: Tok| t, if keep { Some(Tok::new(2)) } else { None }, map => |x: Tok, y: Tok| Tok::new(x.0.wrapping_add(y.0))",
+         "r.is_some() as i32", "Some(x) => keep && x.0 == a.wrapping_add(2), None => !keep"),
+        ("join_then_handler", "join", "Tok",
+         "Some(Tok::new(a)) ~|> |t: Tok| t, Tok::new(5) -> |t: Tok| t, then => |x: Option<Tok>, y: Tok| Tok::new(x.map(|t| t.0).unwrap_or(0).wrapping_add(y.0))",
+         "1", "x => x.0 == a.wrapping_add(5)"),
+        ("wrapper_moves", "join", "Option<Option<Tok>>",
+         "Some(Some(Tok::new(a))) |> >>> |> |t: Tok| Tok::new(t.0.wrapping_add(1)) <<< ~|> |v: Option<Tok>| if keep { v } else { None }",
+         "matches!(r, Some(Some(_))) as i32", "Some(Some(x)) => keep && x.0 == a.wrapping_add(1), Some(None) => !keep, None => false"),
+        ("let_names_borrowed", "join", "(Option<Tok>, Option<u8>)",
+         "let t0 = Some(Tok::new(a)) ~|> |t: Tok| t, Some(1u8) ~|> { let seen = t0.as_ref().map(|t| t.0); move |x: u8| x.wrapping_add(seen.unwrap_or(0)) }",
+         "r.0.is_some() as i32", "(Some(x), Some(y)) => x.0 == a && *y == a.wrapping_add(1), _ => false"),
+        ("borrow_caller_stack", "join", "(Option<u8>, Option<u8>)",
+         "Some(a) |> |x: u8| { *cnt_ref += 1; x } ~|> |x: u8| x, Some(local.0) ~|> |x: u8| x.wrapping_add(local.0)",
+         "0", "(Some(x), Some(y)) => *x == a && *y == 14, _ => false"),
+    ]
+    for (name, mac, rty, body, live_expr, okpat) in progs:
+        b = "    let a: u8 = kani::any();\n    let keep: bool = kani::any();\n"
+        if name == "borrow_caller_stack":
+            b += "    let mut cnt: u8 = 0;\n    let cnt_ref = &mut cnt;\n    let local = Tok::new(7);\n"
+        prog = "%s! { %s }" % (mac, body)
+        b += "    {\n        let r: %s = %s;\n" % (rty, prog)
+        if name == "borrow_caller_stack":
+            b += "        assert!(*cnt_ref == 1);\n        assert!(local.0 == 7);\n"
+        b += "        assert!(match &r { %s }, \"C10: value changed on the way\");\n" % okpat
+        if name == "borrow_caller_stack":
+            b += "        assert!(live() == 1, \"C10: a value was duplicated or leaked\");\n    }\n    drop(local);\n"
+        else:
+            b += "        assert!(live() == %s, \"C10: a value was duplicated or dropped early\");\n    }\n" % live_expr
+        b += "    assert!(live() == 0, \"C10: a value was not dropped exactly once\");\n"
+        b += "    kani_cover!(keep);\n    kani_cover!(!keep);\n"
+        hn = "%s_tok_%s" % (prop.lower(), name)
+        out.append(Harness(hn, harness_fn(hn, b), prog, note="move-only Tok (no Clone, counting Drop)"))
+    return out
+
+
+# ======================================================================================
+# Family CAPTURE (C11, also C10/C12 inputs): `{..}` operands evaluated once, before their step
+# ======================================================================================
+
+def cap(i, s, p, k, body):
+    return "{ ev(code(K_CAP, %d, %d, %d)); %s }" % (i, s, 2 * p + k, body)
+
+
+def cl(i, s, p, body, params="x: u8"):
+    return "|%s| { ev(code(K_CALL, %d, %d, %d)); %s }" % (params, i, s, p, body)
+
+
+# hoisting operators on Option<u8> (type preserving): macro text with {B0}/{B1}, reference with {0}/{1}, operand bodies
+def HOIST_OPT(i, s, p):
+    return [
+        ("map", "|> {B0}", ".map({0})", [cl(i, s, p, "x.wrapping_add(%d)" % K(i, s))]),
+        ("and_then", "=> {B0}", ".and_then({0})", [cl(i, s, p, "if x > 3 { Some(x) } else { None }")]),
+        ("filter", "?> {B0}", ".filter({0})", [cl(i, s, p, "*x < 250", "x: &u8")]),
+        ("then", "-> {B0}", "@call@{0}", [cl(i, s, p, "v.or(Some(2))", "v: Option<u8>")]),
+        ("or", "<| {B0}", ".or({0})", ["Some(%du8)" % K(i, s)]),
+        ("or_else", "<= {B0}", ".or_else({0})", [cl(i, s, p, "Some(%du8)" % K(i, s), "")]),
+        ("inspect", "?? {B0}", "@inspect@{0}", [cl(i, s, p, "let _ = v;", "v: &Option<u8>")]),
+    ]
+
+
+def fam_capture(prop, tier):
+    out = []
+    nops = len(HOIST_OPT(0, 0, 0))
+    profs = [(2, 2), (1, 2), (2, 1)] if tier == "quick" else [(2, 2), (1, 2), (2, 1), (2, 2, 2), (3, 2), (1, 2, 3)]
+    for rot in range(nops):
+        for ds in profs:
+            if tier == "quick" and ds != (2, 2) and rot % 3:
+                continue
+            out.append(_capture_harness(prop, ds, rot, "join"))
+    for rot in (0, 3):
+        out.append(_capture_harness(prop, (2, 2), rot, "try_join"))
+    out += _capture_special(prop)
+    return out
+
+
+def _capture_harness(prop, ds, rot, mac):
+    n = len(ds)
+    b = ""
+    for i in range(n):
+        b += "    let a%d: u8 = kani::any();\n" % i
+    brs = []
+    steps = {}
+    nev = 0
+    for i in range(n):
+        # initial value is a block too (hoisted like an operand)
+        init_body = "Some(a%d)" % i
+        t = cap(i, 0, 0, 0, init_body)
+        steps.setdefault((0, i), []).append(("@init@", [cap(i, 0, 0, 0, init_body)], (i, 0, 0)))
+        nev += 1
+        for s in range(ds[i]):
+            for p in (1, 2):
+                if s == 0 and p == 2 and i % 2:
+                    continue
+                ops = HOIST_OPT(i, s, p)
+                name, m, r, bodies = ops[(rot + 2 * i + 3 * s + p) % len(ops)]
+                blocks = [cap(i, s, p, k, bd) for k, bd in enumerate(bodies)]
+                mt = m
+                for k, bl in enumerate(blocks):
+                    mt = mt.replace("{B%d}" % k, bl)
+                t += " %s%s" % ("~" if (p == 1 and s > 0) else "", mt)
+                steps.setdefault((s, i), []).append((r, blocks, (i, s, p)))
+                nev += len(blocks) + 1
+        brs.append(t)
+    prog = "%s! { %s }" % (mac, ", ".join(brs))
+    is_try = mac == "try_join"
+    rty = ("Option<%s>" % tupty("u8", n)) if is_try else tupty("Option<u8>", n)
+    b += "    let r: %s = %s;\n" % (rty, prog)
+    b += "    reference_mode();\n"
+    b += "    let exp: %s = (|| {\n" % rty
+    for s in range(max(ds)):
+        act = [i for i in range(n) if ds[i] > s]
+        b += "        // step %d: every block operand of the step, branch by branch, position by position ...\n" % s
+        for i in act:
+            for (r, blocks, (ii, ss, pp)) in steps.get((s, i), []):
+                for k, bl in enumerate(blocks):
+                    b += "        let c_%d_%d_%d_%d = %s;\n" % (ii, ss, pp, k, bl)
+        b += "        // ... then the branch expressions\n"
+        for i in act:
+            for (r, blocks, (ii, ss, pp)) in steps.get((s, i), []):
+                if r == "@init@":
+                    b += "        let v%d: Option<u8> = c_%d_0_0_0;\n" % (i, i)
+                    continue
+                rr = r
+                for k in range(len(blocks)):
+                    rr = rr.replace("{%d}" % k, "c_%d_%d_%d_%d" % (ii, ss, pp, k))
+                b += "        let v%d: Option<u8> = %s;\n" % (i, _apply_ref("v%d" % i, rr))
+        if is_try:
+            for i in act:
+                b += "        if v%d.is_none() { return None; }\n" % i
+    if is_try:
+        b += "        Some(%s)\n    })();\n" % tup("v%d.unwrap()" % i for i in range(n))
+    else:
+        b += "        %s\n    })();\n" % tup("v%d" % i for i in range(n))
+    b += "    assert!(r == exp, \"C11: value differs when block operands are evaluated up front\");\n"
+    b += trace_eq(nev)
+    hn = "%s_cap_%s_%s_r%d" % (prop.lower(), mac, pname(ds), rot)
+    return Harness(hn, harness_fn(hn, b), prog, note="block operands on every action; profile %s; operator rotation %d" % (ds, rot))
+
+
+def _capture_special(prop):
+    """iterator operators with two operands / inside wrappers (fold, try_fold, chain, zip, find*, partition)"""
+    out = []
+    A = "    let a: [u8; 3] = [kani::any(), kani::any(), kani::any()];\n    let a1: u8 = kani::any();\n"
+    side = "Some(a1) |> %s" % cap(0, 0, 1, 0, cl(0, 0, 1, "x.wrapping_add(1)"))
+    side_ref_cap = "let c0 = %s;" % cap(0, 0, 1, 0, cl(0, 0, 1, "x.wrapping_add(1)"))
+    progs = [
+        ("fold2", "a.into_iter() ^@ %s, %s" % (cap(1, 0, 1, 0, "1u8"), cap(1, 0, 1, 1, cl(1, 0, 1, "acc.wrapping_mul(3).wrapping_add(x)", "acc: u8, x: u8"))),
+         ["let d0 = %s;" % cap(1, 0, 1, 0, "1u8"), "let d1 = %s;" % cap(1, 0, 1, 1, cl(1, 0, 1, "acc.wrapping_mul(3).wrapping_add(x)", "acc: u8, x: u8"))],
+         "a.into_iter().fold(d0, d1)", "u8", 5),
+        ("try_fold2", "a.into_iter() ?^@ %s, %s" % (cap(1, 0, 1, 0, "0u8"), cap(1, 0, 1, 1, cl(1, 0, 1, "acc.checked_add(x)", "acc: u8, x: u8"))),
+         ["let d0 = %s;" % cap(1, 0, 1, 0, "0u8"), "let d1 = %s;" % cap(1, 0, 1, 1, cl(1, 0, 1, "acc.checked_add(x)", "acc: u8, x: u8"))],
+         "a.into_iter().try_fold(d0, d1)", "Option<u8>", 5),
+        ("chain_in_wrapper", "[[a[0], a[1]], [a[2], 9u8]].into_iter() |> >>> .. into_iter() >@> %s %s <<< %s" % (cap(1, 0, 3, 0, "[7u8]"), SUM, SUM),
+         ["let d0 = %s;" % cap(1, 0, 3, 0, "[7u8]")],
+         "[[a[0], a[1]], [a[2], 9u8]].into_iter().map(|v| v.into_iter().chain(d0)%s)%s" % (SUMC, SUMC), "u8", 6),
+        ("zip_in_wrapper", "[[a[0], a[1]], [a[2], 9u8]].into_iter() |> >>> .. into_iter() >^> %s ^@ 0u8, |acc: u8, (x, y): (u8, u8)| acc.wrapping_add(x).wrapping_add(y) <<< %s" % (cap(1, 0, 3, 0, "[7u8, 8u8]"), SUM),
+         ["let d0 = %s;" % cap(1, 0, 3, 0, "[7u8, 8u8]")],
+         "[[a[0], a[1]], [a[2], 9u8]].into_iter().map(|v| v.into_iter().zip(d0).fold(0u8, |acc: u8, (x, y): (u8, u8)| acc.wrapping_add(x).wrapping_add(y)))%s" % SUMC, "u8", 6),
+        ("find_family", "a.into_iter() ?> %s ?|> %s ?@ %s" % (cap(1, 0, 1, 0, cl(1, 0, 1, "*x > 1", "x: &u8")), cap(1, 0, 2, 0, cl(1, 0, 2, "x.checked_add(1)")), cap(1, 0, 3, 0, cl(1, 0, 3, "*x > 4", "x: &u8"))),
+         ["let d0 = %s;" % cap(1, 0, 1, 0, cl(1, 0, 1, "*x > 1", "x: &u8")), "let d1 = %s;" % cap(1, 0, 2, 0, cl(1, 0, 2, "x.checked_add(1)")), "let d2 = %s;" % cap(1, 0, 3, 0, cl(1, 0, 3, "*x > 4", "x: &u8"))],
+         "a.into_iter().filter(d0).filter_map(d1).find(d2)", "Option<u8>", 5),
+        ("find_map_partition", "a.into_iter() ?&!> %s" % cap(1, 0, 1, 0, cl(1, 0, 1, "*x > 3", "x: &u8")),
+         ["let d0 = %s;" % cap(1, 0, 1, 0, cl(1, 0, 1, "*x > 3", "x: &u8"))], "a.into_iter().partition(d0)", "(Acc, Acc)", 5),
+        ("wrapper_capture_unused", "if a1 > 100 { Some(Some(a1)) } else { None } |> >>> |> %s <<<" % cap(1, 0, 2, 0, cl(1, 0, 2, "x.wrapping_add(1)")),
+         ["let d0 = %s;" % cap(1, 0, 2, 0, cl(1, 0, 2, "x.wrapping_add(1)"))], "(if a1 > 100 { Some(Some(a1)) } else { None }).map(|v| v.map(d0))", "Option<Option<u8>>", 0),
+    ]
+    for (name, br1, caps, chain, rty, uw) in progs:
+        b = A
+        prog = "join! { %s, %s }" % (side, br1)
+        b += "    let r: (Option<u8>, %s) = %s;\n" % (rty, prog)
+        b += "    reference_mode();\n    %s\n" % side_ref_cap
+        for c in caps:
+            b += "    %s\n" % c
+        b += "    let exp: (Option<u8>, %s) = (Some(a1).map(c0), %s);\n" % (rty, chain)
+        b += "    assert!(r == exp, \"C11: value differs when block operands are evaluated up front\");\n"
+        b += trace_eq(14)
+        hn = "%s_cap_special_%s" % (prop.lower(), name)
+        out.append(Harness(hn, harness_fn(hn, b, unwind=uw or None), prog, note="block operands of iterator operators / inside wrappers"))
+    return out
+
+
+FAMILIES["C10"] = [fam_ops, fam_tok, lambda p, t: _capture_special(p)]
+FAMILIES["C11"] = [fam_capture]
+FAMILIES["C19"] = [fam_tok]
+
+
+# ======================================================================================
+# Family LET (C12): `let name =` exposes each branch's latest step result to later captures
+# ======================================================================================
+
+def fam_let(prop, tier):
+    out = []
+    if tier == "quick":
+        profs = [(2, 2), (1, 2), (2, 1), (1, 3), (2, 2, 2), (1, 2, 3), (2, 3, 1), (3, 1, 2)]
+    else:
+        profs = [p for p in profiles([2, 3], 3) if max(p) > 1]
+    for mac in ("join", "try_join"):
+        for ds in profs:
+            n = len(ds)
+            subsets = [m for m in range(1, 2 ** n)]
+            if tier == "quick":
+                subsets = [m for m in subsets if m in (1, 2, 2 ** n - 1, 2 ** n - 2, 5, 6)]
+            for mask in subsets:
+                if mask >= 2 ** n:
+                    continue
+                out.append(_let_harness(prop, mac, ds, mask))
+    for mac in ("join_async", "try_join_async"):
+        for ds, mask in [((2, 2), 2), ((1, 2), 1), ((2, 2, 2), 6)]:
+            out.append(_let_harness(prop, mac, ds, mask))
+    return out
+
+
+def _let_harness(prop, mac, ds, mask):
+    """named branches = bits of mask.  In every step s >= 1 branch j reads, inside a block capture, the name of the
+    nearest named branch i != j (cyclically) and folds the snapshot into its value."""
+    n = len(ds)
+    is_try = mac.startswith("try")
+    is_async = mac.endswith("async")
+    named = [i for i in range(n) if mask >> i & 1]
+    W = "Ok::<u8, u8>" if is_try else "Some"
+    wty = "Result<u8, u8>" if is_try else "Option<u8>"
+    b = ""
+    for i in range(n):
+        b += "    let a%d: u8 = kani::any();\n" % i
+
+    def snap_expr(nm):
+        # the name holds the branch's latest step result, still wrapped in its Option/Result
+        return "%s.clone().unwrap_or(77)" % nm if not is_async else "%s.clone().unwrap_or(77)" % nm
+    brs = []
+    reads = {}
+    for j in range(n):
+        init = "%s(a%d)" % (W, j)
+        if is_async:
+            init = "gate(0, code(K_POLL, %d, 0, 0), %s)" % (j, init)
+        t = ("let %sn%d = " % ("mut " if j % 2 else "", j) if j in named else "") + init
+        for s in range(1, ds[j]):
+            others = [i for i in named if i != j]
+            if others:
+                i = others[(j + s) % len(others)]
+                reads[(j, s)] = i
+                body = "{ let snap: u8 = %s; move |x: u8| x.wrapping_mul(3).wrapping_add(snap) }" % snap_expr("n%d" % i)
+            else:
+                body = "|x: u8| x.wrapping_mul(3).wrapping_add(%d)" % K(j, s)
+            if is_async and is_try:
+                t += " ~|> { let f = %s; move |r: Result<u8, u8>| r.map(f) }" % body
+            elif is_async:
+                t += " ~|> { let f = %s; move |r: Option<u8>| r.map(f) }" % body
+            else:
+                t += " ~|> %s" % body
+        brs.append(t)
+    prog = "%s! { %s }" % (mac, ", ".join(brs))
+    if is_try:
+        rty = "Result<%s, u8>" % tupty("u8", n)
+    else:
+        rty = tupty(wty, n)
+    if is_async:
+        b += "    let (out, _p) = run(%s, 1);\n    assert!(out.is_some());\n    let r: %s = out.unwrap();\n" % (prog, rty)
+    else:
+        b += "    let r: %s = %s;\n" % (rty, prog)
+    # reference: staged evaluation; cur[i] = branch i's value after its latest finished step
+    for i in range(n):
+        b += "    let mut c%d: u8 = a%d;\n" % (i, i)
+    for s in range(1, max(ds)):
+        b += "    // step %d: captures read the values as they stand after step %d\n" % (s, s - 1)
+        for j in range(n):
+            if ds[j] > s:
+                if (j, s) in reads:
+                    b += "    let s_%d_%d: u8 = c%d;\n" % (j, s, reads[(j, s)])
+        for j in range(n):
+            if ds[j] > s:
+                if (j, s) in reads:
+                    b += "    c%d = c%d.wrapping_mul(3).wrapping_add(s_%d_%d);\n" % (j, j, j, s)
+                else:
+                    b += "    c%d = c%d.wrapping_mul(3).wrapping_add(%d);\n" % (j, j, K(j, s))
+    if is_try:
+        b += "    let exp: %s = Ok(%s);\n" % (rty, tup("c%d" % i for i in range(n)))
+    else:
+        b += "    let exp: %s = %s;\n" % (rty, tup("Some(c%d)" % i for i in range(n)))
+    b += "    assert!(r == exp, \"C12: a name did not expose its branch's latest step result (or naming changed the result)\");\n"
+    hn = "%s_let_%s_%s_m%d" % (prop.lower(), mac, pname(ds), mask)
+    return Harness(hn, harness_fn(hn, b, unwind=(3 if is_async else None)), prog, note="profile %s, named branches mask %s" % (ds, bin(mask)))
+
+
+# ======================================================================================
+# Family HANDLER (C13)
+# ======================================================================================
+
+def fam_handler(prop, tier):
+    out = []
+    ns = [1, 2, 3]
+    for mac, hk in [("join", "then"), ("try_join", "map"), ("try_join", "and_then"), ("join_async", "then"),
+                    ("try_join_async", "map"), ("try_join_async", "and_then")]:
+        for n in ns:
+            for depth2 in (False, True):
+                if mac.endswith("async") and n == 3 and depth2 and tier == "quick":
+                    continue
+                for pos in (("end",) if tier == "quick" and n != 2 else ("end", "mid")):
+                    out.append(_handler_harness(prop, mac, hk, n, depth2, pos))
+    return out
+
+
+def _handler_harness(prop, mac, hk, n, depth2, pos):
+    is_try = mac.startswith("try")
+    is_async = mac.endswith("async")
+    b = ""
+    for i in range(n):
+        b += "    let a%d: u8 = kani::any(); let f%d: bool = kani::any();\n" % (i, i)
+    b += "    let hf: bool = kani::any();\n"
+    brs = []
+    for i in range(n):
+        v = "if f%d { Err::<u8, u8>(%d) } else { Ok(a%d) }" % (i, 100 + i, i)
+        if is_async:
+            t = "gate(0, code(K_POLL, %d, 0, 0), %s)" % (i, v)
+        else:
+            t = v
+        if depth2 and i == 0:
+            if is_async:
+                t += " ~|> |r: Result<u8, u8>| r.map(|x| x.wrapping_add(1))"
+            else:
+                t += " ~|> |x: u8| x.wrapping_add(1)"
+        brs.append(t)
+    et = "u8" if is_try else "Result<u8, u8>"
+    args = ", ".join("x%d: %s" % (i, et) for i in range(n))
+    if is_try:
+        summ = " ^ ".join("x%d.wrapping_mul(%d)" % (i, 2 * i + 3) for i in range(n))
+    else:
+        summ = " ^ ".join("x%d.unwrap_or(%d).wrapping_mul(%d)" % (i, 50 + i, 2 * i + 3) for i in range(n))
+    hbody = "{ ev(code(K_HANDLER, 0, 0, %d)); " % n
+    if hk == "then":
+        val = summ
+    elif hk == "map":
+        val = summ
+    else:
+        val = "if hf { Err::<u8, u8>(200) } else { Ok(%s) }" % summ
+    if is_async and hk in ("then", "and_then"):
+        val = "core::future::ready(%s)" % val      # the handler's future must be awaited
+    hbody += val + " }"
+    h = "%s => |%s| %s" % (hk, args, hbody)
+    parts = list(brs)
+    if pos == "mid" and n >= 2:
+        parts.insert(1, h)
+    else:
+        parts.append(h)
+    prog = "%s! { %s }" % (mac, ", ".join(parts))
+    rty = "Result<u8, u8>" if is_try else "u8"
+    if is_async:
+        b += "    let (out, _p) = run(%s, 1);\n    assert!(out.is_some());\n    let r: %s = out.unwrap();\n" % (prog, rty)
+    else:
+        b += "    let r: %s = %s;\n" % (rty, prog)
+    # reference from C13
+    vals = []
+    for i in range(n):
+        vals.append("a%d%s" % (i, ".wrapping_add(1)" if (depth2 and i == 0) else ""))
+    if is_try:
+        anyf = " || ".join("f%d" % i for i in range(n))
+        s2 = " ^ ".join("%s.wrapping_mul(%d)" % (vals[i], 2 * i + 3) for i in range(n))
+        b += "    let anyf = %s;\n" % anyf
+        first = "0"
+        for i in reversed(range(n)):
+            first = "if f%d { %d } else { %s }" % (i, 100 + i, first)
+        if hk == "map":
+            b += "    let exp: Result<u8, u8> = if anyf { Err(%s) } else { Ok(%s) };\n" % (first, s2)
+        else:
+            b += "    let exp: Result<u8, u8> = if anyf { Err(%s) } else if hf { Err(200) } else { Ok(%s) };\n" % (first, s2)
+        if is_async:
+            b += "    assert!(r.is_ok() == exp.is_ok()); if r.is_ok() || !anyf { assert!(r == exp); }\n"
+            b += "    if let Err(e) = r { if anyf { assert!(%s); } }\n" % " || ".join("(f%d && e == %d)" % (i, 100 + i) for i in range(n))
+        else:
+            b += "    assert!(r == exp, \"C13: wrong result\");\n"
+        b += "    assert!(tlen_kind(K_HANDLER) == (!anyf) as usize, \"C13: map/and_then handler must run exactly once iff every branch succeeded\");\n"
+    else:
+        s2 = " ^ ".join("(if f%d { %d } else { %s }).wrapping_mul(%d)" % (i, 50 + i, vals[i], 2 * i + 3) for i in range(n))
+        b += "    let exp: u8 = %s;\n" % s2
+        b += "    assert!(r == exp, \"C13: `then` receives the raw values in branch order and its value is the macro's value\");\n"
+        b += "    assert!(tlen_kind(K_HANDLER) == 1, \"C13: `then` handler must run exactly once\");\n"
+    hn = "%s_handler_%s_%s_n%d_%s_%s" % (prop.lower(), mac, hk, n, "d2" if depth2 else "d1", pos)
+    return Harness(hn, harness_fn(hn, b, unwind=(TMAX + 2)), prog, note="%s handler on %s, %d branches" % (hk, mac, n))
+
+
+# ======================================================================================
+# Family OPTIONS (C16)
+# ======================================================================================
+
+def fam_options(prop, tier):
+    out = []
+    sup = ""
+    # -------- custom joiner (function) in join!: called once per step with > 1 active branch, with those branches in order
+    for ds in [(1, 1), (2, 2), (1, 2), (2, 1), (2, 1, 2), (1, 2, 2), (3, 2, 1), (1, 1, 2)]:
+        for lazy in (False, True):
+            if tier == "quick" and lazy and len(ds) == 3 and ds != (2, 1, 2):
+                continue
+            out.append(_joiner_harness(prop, ds, lazy))
+    # -------- transpose_results(false) with a joiner that returns the already transposed Result (sync; fix b146182)
+    for ds in [(1, 1), (2, 2), (1, 2), (2, 1), (2, 1, 2), (3, 2)]:
+        out.append(_transpose_harness(prop, ds))
+    # -------- futures_crate_path + async custom joiner macro
+    b = "    let a: u8 = kani::any(); let c: u8 = kani::any();\n"
+    prog = "join_async! { futures_crate_path(crate::support::reexport::futures) gate(0, code(K_POLL, 0, 0, 0), a) ~|> |x: u8| x.wrapping_add(1), gate(0, code(K_POLL, 1, 0, 0), c) ~|> |x: u8| x.wrapping_add(2) }"
+    b += "    let (out, _p) = run(%s, 1);\n    assert!(out == Some((a.wrapping_add(1), c.wrapping_add(2))));\n" % prog
+    out.append(Harness("c16_opt_futures_crate_path", harness_fn("c16_opt_futures_crate_path", b, unwind=3), prog, note="every futures item through the given path"))
+    b = "    let a: u8 = kani::any(); let c: u8 = kani::any();\n"
+    prog = "try_join_async! { custom_joiner(crate::log_try_join!) transpose_results(false) lazy_branches(false) futures_crate_path(::futures) gate(0, code(K_POLL, 0, 0, 0), Ok::<u8, u8>(a)) ~|> |r: Result<u8, u8>| r.map(|x| x.wrapping_add(1)), gate(0, code(K_POLL, 1, 0, 0), Ok::<u8, u8>(c)) }"
+    b += "    let (out, _p) = run(%s, 1);\n    assert!(out.is_some());\n" % prog
+    b += "    let r: Result<(u8, u8), u8> = out.unwrap();\n    assert!(r == Ok((a.wrapping_add(1), c)));\n    assert!(tlen_kind(K_JOINER) == 1);\n"
+    out.append(Harness("c16_opt_async_macro_joiner_all_options", harness_fn("c16_opt_async_macro_joiner_all_options", b, unwind=TMAX + 2), prog, note="all four options, async, macro joiner"))
+    return out
+
+
+def _joiner_harness(prop, ds, lazy):
+    n = len(ds)
+    b = ""
+    for i in range(n):
+        b += "    let a%d: u8 = kani::any();\n" % i
+    brs = []
+    for i in range(n):
+        t = "tag(code(K_INIT, %d, 0, 0), Some(a%d))" % (i, i)
+        for s in range(1, ds[i]):
+            t += " ~|> |x: u8| { ev(code(K_CALL, %d, %d, 0)); x.wrapping_add(%d) }" % (i, s, K(i, s))
+        brs.append(t)
+    jn = "crate::support::lazy_joiner!" if lazy else "crate::support::value_joiner!"
+    prog = "join! { custom_joiner(%s) %s%s }" % (jn, "lazy_branches(true) " if lazy else "", ", ".join(brs))
+    rty = tupty("Option<u8>", n)
+    b += "    let r: %s = %s;\n" % (rty, prog)
+    vals = []
+    for i in range(n):
+        e = "a%d" % i
+        for s in range(1, ds[i]):
+            e = "%s.wrapping_add(%d)" % (e, K(i, s))
+        vals.append("Some(%s)" % e)
+    b += "    assert!(r == %s, \"C16: the joiner's output must be used as the step result\");\n" % tup(vals)
+    # expected joiner calls: one per step with > 1 active branch, arity = number of active branches
+    calls = [(s, len([i for i in range(n) if ds[i] > s])) for s in range(max(ds))]
+    calls = [(s, k) for (s, k) in calls if k > 1]
+    b += "    assert!(tlen_kind(K_JOINER) == %d, \"C16: custom_joiner must be invoked exactly once per step with more than one active branch\");\n" % len(calls)
+    for idx, (s, k) in enumerate(calls):
+        b += "    assert!(nth_kind(K_JOINER, %d) == code(K_JOINER, 0, 0, %d), \"C16: joiner arity != number of active branches\");\n" % (idx, k)
+    # lazy_branches(true): the joiner macro CALLS each argument (`($b)()`), so anything but a zero-argument closure does not compile;
+    # eager: the joiner returns the arguments as the step values, so a closure would not type-check against the result type
+    hn = "%s_joiner_%s_%s" % (prop.lower(), pname(ds), "lazy" if lazy else "eager")
+    return Harness(hn, harness_fn(hn, b, unwind=TMAX + 2), prog, note="logging joiner, profile %s" % (ds,))
+
+
+def _transpose_harness(prop, ds):
+    n = len(ds)
+    b = ""
+    for i in range(n):
+        b += "    let a%d: u8 = kani::any(); let f%d: bool = kani::any();\n" % (i, i)
+    b += "    let g: bool = kani::any();\n"
+    brs = []
+    for i in range(n):
+        t = "if f%d { Err::<u8, u8>(%d) } else { Ok(a%d) }" % (i, 100 + i, i)
+        for s in range(1, ds[i]):
+            if i == 0 and s == 1:
+                t += " ~=> |x: u8| { ev(code(K_CALL, 0, 1, 0)); if g { Err::<u8, u8>(150) } else { Ok(x.wrapping_add(%d)) } }" % K(i, s)
+            else:
+                t += " ~|> |x: u8| { ev(code(K_CALL, %d, %d, 0)); x.wrapping_add(%d) }" % (i, s, K(i, s))
+        brs.append(t)
+    prog = "try_join! { transpose_results(false) custom_joiner(crate::support::transposing_joiner!) %s }" % ", ".join(brs)
+    rty = "Result<%s, u8>" % tupty("u8", n)
+    b += "    let r: %s = %s;\n" % (rty, prog)
+    vals = []
+    for i in range(n):
+        e = "a%d" % i
+        for s in range(1, ds[i]):
+            e = "%s.wrapping_add(%d)" % (e, K(i, s))
+        vals.append(e)
+    first = "0"
+    for i in reversed(range(n)):
+        first = "if f%d { %d } else { %s }" % (i, 100 + i, first)
+    anyf = " || ".join("f%d" % i for i in range(n))
+    gfail = "g" if ds[0] > 1 else "false"
+    b += "    let exp: %s = if %s { Err(%s) } else if %s { Err(150) } else { Ok(%s) };\n" % (rty, anyf, first, gfail, tup(vals))
+    b += "    assert!(r == exp, \"C16: transpose_results(false): the joiner's output is the already transposed Result in every step\");\n"
+    hn = "%s_transpose_false_%s" % (prop.lower(), pname(ds))
+    return Harness(hn, harness_fn(hn, b, unwind=TMAX + 2), prog, note="transposing joiner, profile %s" % (ds,))
+
+
+FAMILIES["C12"] = [fam_let]
+FAMILIES["C13"] = [fam_handler]
+FAMILIES["C16"] = [fam_options]
